@@ -119,4 +119,43 @@ def run(chk, F, tier):
                           witness={"labels": sorted(map(str, labs))},
                           sample={"rule": "R04c", "fn": fn, "vfs_fields_used": sorted(fields), "verdict": "only config + cache"})
         chk.check(seen, "R04c", "%s:calls-parse" % fn, "Vfs::%s no longer calls LuaParser::parse" % fn, b.loc())
+    # R04d: the configuration a parse is derived from carries no memo
+    chk.rule("R04d", "the types the parser configuration is computed from (Emmyrc and everything it contains, ParserConfig) have no interior-mutable "
+                     "field: a lazily filled cell would survive `clone()` + edit and make the tree depend on what was parsed before")
+    INTERIOR = ("Mutex<", "RwLock<", "RefCell<", "::Cell<", "::atomic::Atomic", "OnceCell<", "OnceLock<", "LazyLock<", "LazyCell<", "UnsafeCell<")
+    todo = ["emmylua_code_analysis::config::Emmyrc", "emmylua_parser::parser::parser_config::ParserConfig"]
+    seen_adts = set()
+    nf = 0
+    while todo:
+        path = todo.pop()
+        if path in seen_adts:
+            continue
+        seen_adts.add(path)
+        adt = F.adts.get(path)
+        if adt is None:
+            continue
+        types = adt["_types"]
+        for v in adt["variants"]:
+            for f in v["fields"]:
+                nf += 1
+                fty = types[f["ty"]]
+                hit = [x for x in INTERIOR if x in fty[0]]
+                # ParserConfig legitimately borrows the interning cache (`&mut NodeCache`), which R04a covers
+                chk.check(not hit, "R04d", "%s.%s" % (path.split("::")[-1], f["name"]),
+                          "field `%s: %s` of %s is interior-mutable (%s): parser settings memoised in it outlive the values they were computed from "
+                          "(a cloned and edited config keeps the old tables), so identical text and configuration can parse differently depending on history"
+                          % (f["name"], fty[0][:120], path, hit[0].strip("<:") if hit else ""), "%s:%s" % (adt["file"], adt["line"]),
+                          sample={"rule": "R04d", "field": "%s.%s" % (path.split("::")[-1], f["name"]), "verdict": "plain data"})
+                st = [f["ty"]]
+                seen_t = set()
+                while st:
+                    ti = st.pop()
+                    if ti in seen_t:
+                        continue
+                    seen_t.add(ti)
+                    t = types[ti]
+                    if t[2] == "adt" and t[3] in F.adts and t[3].startswith(("emmylua_code_analysis::config", "emmylua_parser::parser::parser_config")):
+                        todo.append(t[3])
+                    st.extend(t[4] or [])
+    chk.floor("configuration fields examined", nf, 60)
     chk.explanation = "Who-may-call on the NodeCache API, call-graph reachability + static-reference scan from the parser entry points, argument provenance at the Vfs parse call."
